@@ -474,6 +474,18 @@ V({
     "trusted": [],
 })
 
+# -------------------------------------------------------------------------- V17
+V({
+    "id": "V17",
+    "title": "truncation_guards: Forest::abstract_positive_literal (chalk-engine/src/logic.rs), Fulfill::push_obligation (chalk-recursive/src/fulfill.rs)",
+    "template": "v17_truncation_guards.rs",
+    "assumptions": [
+        "V17: truncate::needs_truncation (a TypeVisitor measuring the goal) is abstract: `too_big(goal, max_size)`",
+        "V17: canonicalize / u_canonicalize are abstract (only their results are passed on)",
+    ],
+    "trusted": ["chalk-solve truncate::needs_truncation"],
+})
+
 # ===========================================================================
 GLOBAL_ASSUMPTIONS = [
     "soundness of rustc+Kani's model of core/alloc and of CBMC; soundness of Verus and Z3",
